@@ -182,7 +182,7 @@ def rule_b(rep: Report, idx: SourceIndex) -> None:
 	arth_tokens = []
 	if arth is not None:
 		for n in ast.walk(arth.node):
-			if isinstance(n, ast.List):
+			if isinstance(n, (ast.List, ast.Tuple, ast.Set)) and n.elts and all(const_str(e) is not None for e in n.elts):
 				arth_tokens = [const_str(e) for e in n.elts]
 	for tok, (dunder, line) in rows.items():
 		if tok is None:
